@@ -2,6 +2,7 @@ package c02
 
 import (
 	"fmt"
+	"math"
 	"math/big"
 	"math/bits"
 	"testing"
@@ -32,9 +33,145 @@ type GadgetCase struct {
 	GStride  int        `json:"gStride"`
 	Coeffs   []CoefSpec `json:"coeffs"`
 	Dirt     uint64     `json:"dirt"`
+	Directed bool       `json:"directed,omitempty"` // drawn by the overflow-guard class generator (information only)
+}
+
+// overF is lattigo's accumulation margin (Parameters.QiOverflowMargin(level) >> 1): how many lazy products are summed
+// before a reduction.
+func overF(moduli []uint64) int {
+	if len(moduli) == 0 {
+		return -1
+	}
+	var mx uint64
+	for _, q := range moduli {
+		if q > mx {
+			mx = q
+		}
+	}
+	return int(math.Exp2(64)/float64(mx)) >> 1
+}
+
+// digitProducts is the number of digit products accumulated by the gadget product at (levelQ, levelP, w).
+func digitProducts(Q []uint64, levelQ, levelP, w int) int {
+	if levelP > 0 || w == 0 {
+		nb := levelP + 1
+		if nb < 1 {
+			nb = 1
+		}
+		return (levelQ + nb) / nb
+	}
+	t := 0
+	for _, q := range Q[:levelQ+1] {
+		t += (bits.Len64(q) + w - 1) / w
+	}
+	return t
+}
+
+// genGadgetDirected draws the overflow-guard class: 7-16 Q primes of one size class (61 / 60 / 59 bits or mixed), P primes
+// of ANOTHER size class, and (levelQ, w) chosen so that the number of accumulated digit products is / is not a multiple
+// of the Q margin and of the P margin (all four combinations, and the neighbours of the multiples).
+func genGadgetDirected(t *rapid.T) GadgetCase {
+	var c GadgetCase
+	c.Directed = true
+	c.Chain.LogN = 4
+	m := uint64(2) << c.Chain.LogN
+	multiP := rapid.IntRange(0, 2).Draw(t, "multiP") > 0
+	qc := rapid.IntRange(0, 3).Draw(t, "qClass") // 61, 60, 59, mixed
+	nQ := rapid.IntRange(7, 16).Draw(t, "nQ")
+	if rapid.Bool().Draw(t, "nQmax") {
+		nQ = 16 // more levels to choose from: every (multiple of the Q margin) x (multiple of the P margin) class is reachable
+	}
+	if !multiP {
+		nQ = rapid.IntRange(1, 6).Draw(t, "nQs")
+	}
+	qs := make([]int, nQ)
+	for i := range qs {
+		if qc == 3 {
+			qs[i] = rapid.IntRange(59, 61).Draw(t, fmt.Sprintf("qb%d", i))
+		} else {
+			qs[i] = 61 - qc
+		}
+	}
+	pClasses := []int{61, 60, 50, 40}
+	pc := pClasses[rapid.IntRange(0, 3).Draw(t, "pClass")]
+	if qc < 3 && pc == 61-qc {
+		pc = 50
+	}
+	nP := rapid.IntRange(2, 3).Draw(t, "nP")
+	if !multiP {
+		nP = rapid.IntRange(0, 1).Draw(t, "nPs")
+	}
+	ps := make([]int, nP)
+	for i := range ps {
+		ps[i] = pc
+	}
+	used := map[uint64]bool{}
+	c.Chain.Q = h.GenPrimes(t, qs, m, used, "q")
+	if nP > 0 {
+		c.Chain.P = h.GenPrimes(t, ps, m, used, "p")
+	}
+	c.KeyLevel = nQ - 1
+	c.LevelP = nP - 1
+	if multiP && nP == 3 && rapid.Bool().Draw(t, "lp1") {
+		c.LevelP = 1
+	}
+	// candidates (levelQ, w) by class: (T mod Q margin == 0, T mod P margin == 0), or a neighbour of a multiple
+	wantA, wantB := rapid.Bool().Draw(t, "multQ"), rapid.Bool().Draw(t, "multP")
+	near := rapid.IntRange(0, 3).Draw(t, "near") == 0
+	type cand struct{ lq, w int }
+	var good, all []cand
+	ws := []int{0}
+	if !multiP {
+		ws = nil
+		for w := 1; w <= 30; w++ {
+			ws = append(ws, w)
+		}
+	}
+	var P []uint64
+	if c.LevelP >= 0 {
+		P = c.Chain.P[:c.LevelP+1]
+	}
+	mp := overF(P)
+	for lq := 0; lq < nQ; lq++ {
+		mq := overF(c.Chain.Q[:lq+1])
+		for _, w := range ws {
+			T := digitProducts(c.Chain.Q, lq, c.LevelP, w)
+			if T > 130 {
+				continue
+			}
+			all = append(all, cand{lq, w})
+			a := T%mq == 0
+			b := mp > 0 && T%mp == 0
+			if near {
+				if T > 1 && ((T+1)%mq == 0 || (T-1)%mq == 0 || (mp > 0 && ((T+1)%mp == 0 || (T-1)%mp == 0))) {
+					good = append(good, cand{lq, w})
+				}
+			} else if a == wantA && (b == wantB || mp <= 0) {
+				good = append(good, cand{lq, w})
+			}
+		}
+	}
+	if len(good) == 0 {
+		good = all
+	}
+	pick := good[rapid.IntRange(0, len(good)-1).Draw(t, "cand")]
+	c.LevelQ, c.W = pick.lq, pick.w
+	c.Method = []string{"product", "lazy", "hoisted"}[rapid.IntRange(0, 2).Draw(t, "method")]
+	if c.Method == "hoisted" && (c.W != 0 || nP == 0) {
+		c.Method = "product"
+	}
+	c.IsNTT = rapid.Bool().Draw(t, "isNTT")
+	c.G = []int{rapid.IntRange(-3, 3).Draw(t, "g0"), rapid.IntRange(-3, 3).Draw(t, "g1")}
+	c.GStride = rapid.IntRange(1, 4).Draw(t, "gstride")
+	c.Coeffs = genCoefs(t, []string{"uni", "uni", "small", "edge", "crt"})
+	c.Dirt = rapid.Uint64().Draw(t, "dirt")
+	return c
 }
 
 func genGadget(t *rapid.T) GadgetCase {
+	if rapid.IntRange(0, 2).Draw(t, "directed") == 0 {
+		return genGadgetDirected(t)
+	}
 	var c GadgetCase
 	maxLogN, maxQ, maxP := 5, 6, 3
 	if h.Thorough() {
@@ -313,6 +450,37 @@ func runGadget(c GadgetCase, rec *h.Rec) error {
 	if margin < 1 {
 		margin = 1
 	}
+	{
+		var Pl []uint64
+		if c.LevelP >= 0 {
+			Pl = c.Chain.P[:c.LevelP+1]
+		}
+		T := digitProducts(c.Chain.Q, c.LevelQ, c.LevelP, c.W)
+		mq, mp := overF(Q), overF(Pl)
+		path := "singleP/bitdecomp"
+		if c.LevelP > 0 {
+			path = "multiP"
+		}
+		if mq <= 64 { // the guard only matters for 58..61-bit Q primes
+			if mp > 0 {
+				rec.Classf("guard %s: T%%Qmargin==0:%v T%%Pmargin==0:%v", path, T%mq == 0, T%mp == 0)
+				if mp != mq {
+					rec.Classf("guard %s margins differ: T%%Qmargin==0:%v T%%Pmargin==0:%v", path, T%mq == 0, T%mp == 0)
+				}
+			} else {
+				rec.Classf("guard %s (no P): T%%Qmargin==0:%v", path, T%mq == 0)
+			}
+			if T > 1 && ((T+1)%mq == 0 || (T-1)%mq == 0) {
+				rec.Classf("guard %s: T next to a multiple of the Q margin", path)
+			}
+			if mp > 0 && T > 1 && ((T+1)%mp == 0 || (T-1)%mp == 0) {
+				rec.Classf("guard %s: T next to a multiple of the P margin", path)
+			}
+		}
+		rec.Note("digitProducts", T)
+		rec.Note("margins", []int{mq, mp})
+	}
+	rec.Classf("directed=%v", c.Directed)
 	overflowClass := accum > 2*margin && maxBits >= 59
 	if overflowClass {
 		rec.Class("accumulation > 2x overflow margin, 59..61-bit primes")
